@@ -143,7 +143,21 @@ func (c14) Gen(r *simrt.Rand, idx int, tier string) *Case {
 		if c.Cmd == "format" {
 			c.Cmd = "print"
 		}
-		c.Note = []string{"accrual-inverted", "accrual-oneday", "date-0001", "accrual-0001", "date-9999", "empty", "comments-only", "huge-number", "zero-price", "deep-account", "no-final-newline"}[r.Intn(11)]
+		c.Note = []string{"accrual-inverted", "accrual-oneday", "date-0001", "accrual-0001", "date-9999", "empty", "comments-only", "huge-number", "zero-price", "deep-account", "no-final-newline", "accrual-inverted-inside-period", "accrual-inverted-inside-period"}[r.Intn(13)]
+		if c.Note == "accrual-inverted-inside-period" {
+			// window end before window start, both inside one period of the interval
+			iv := []string{"daily", "weekly", "monthly", "quarterly", "yearly", "once"}[r.Intn(6)]
+			a, b := "2023-03-20", "2023-03-"+fmt.Sprintf("%02d", r.Range(13, 19))
+			switch iv {
+			case "daily":
+				b = "2023-03-19"
+			case "quarterly", "yearly":
+				b = []string{"2023-03-10", "2023-02-11", "2023-01-01"}[r.Intn(3)]
+			case "monthly", "once":
+				b = []string{"2023-03-10", "2023-03-01", "2023-03-19"}[r.Intn(3)]
+			}
+			c.Note += ":" + iv + " " + a + " " + b
+		}
 	case "infer-fault":
 		c.Cmd = "infer"
 	}
@@ -272,6 +286,30 @@ func (c14) Eval(c *Case) (*Violation, bool) {
 			}
 		}
 		Extra["read_faults_enumerated"] += n
+		if c.Sub == "infer-fault" && base.OK() {
+			// an included file of the training journal is missing: the error is in the input itself, so
+			// the run does not depend on an operation index and can be repeated under other schedules
+			var incl []string
+			for _, nm := range names {
+				if nm != main {
+					incl = append(incl, nm)
+				}
+			}
+			if len(incl) > 0 {
+				gone := incl[r.Intn(len(incl))]
+				fm := copyFiles(files)
+				delete(fm, gone)
+				for k := 0; k < 6; k++ {
+					o := Run(c.specFor(RandSched(r), fm, argv))
+					if v := cleanEnd(o, c.Cmd, c.Args, true, "training journal includes the missing file "+gone); v != nil {
+						v.Signature += ":missing-include"
+						c.Files = fm
+						return v, false
+					}
+				}
+				Extra["infer_missing_include_runs"] += 6
+			}
+		}
 		if c.Tier == "thorough" {
 			// drawn pairs of faults on two different read operations
 			var reads []simrt.FsOp
@@ -500,6 +538,9 @@ func (c14) Eval(c *Case) (*Violation, bool) {
 		return nil, false
 	case "edge":
 		files = copyFiles(files)
+		if w, ok := strings.CutPrefix(c.Note, "accrual-inverted-inside-period:"); ok {
+			files[main] += "\n2020-01-01 open Assets:Acc\n2020-01-01 open Expenses:Edge\n\n@accrue " + w + " Assets:Acc\n2023-03-01 \"inverted inside one period\"\nAssets:Acc Expenses:Edge 1200 CHF\n\n"
+		}
 		switch c.Note {
 		case "accrual-inverted":
 			files[main] += "\n2020-01-01 open Assets:Acc\n2020-01-01 open Expenses:Edge\n\n@accrue monthly 2020-12-01 2020-01-01 Assets:Acc\n2020-03-01 \"inverted\"\nAssets:Acc Expenses:Edge 1200 CHF\n\n"
